@@ -116,12 +116,24 @@ var reservedHeaders = map[string]struct{}{
 	"upgrade":           {},
 }
 
+// protocolHeaders are the HTTP headers that this protocol itself uses to convey
+// the outcome of a unary RPC. Metadata with these keys cannot be sent as is: the
+// receiver would take it for the status of the RPC.
+var protocolHeaders = map[string]struct{}{
+	"x-grpc-status":  {},
+	"x-grpc-details": {},
+}
+
 func toHeaders(md metadata.MD, h http.Header, prefix string) {
 	// binary headers must be base-64-encoded
 	for k, vs := range md {
 		lowerK := strings.ToLower(k)
 		if _, ok := reservedHeaders[lowerK]; ok {
 			// ignore reserved header keys
+			continue
+		}
+		if _, ok := protocolHeaders[lowerK]; ok && prefix == "" {
+			// likewise: un-prefixed, these would collide with the RPC's own status
 			continue
 		}
 		isBin := strings.HasSuffix(lowerK, "-bin")
